@@ -3,6 +3,7 @@
 package c14
 
 import (
+	"bufio"
 	"bytes"
 	"fmt"
 	"io"
@@ -29,6 +30,12 @@ type Case struct {
 	Seed    int64  `json:"seed"`
 	MaxRS   uint64 `json:"max_rs"` // limit handed to NewDecoder
 	Reads   []int  `json:"reads"`  // destination buffer sizes, cycled
+	// Drain: after DrainAfter calls of Read with the sizes above, the REST of the payload is taken
+	// the way library code takes it: "copy" = io.Copy (which prefers a WriteTo method of the
+	// source if it has one), "readall" = io.ReadAll, "bufio" = through a small bufio.Reader and
+	// io.Copy, "readfull" = io.ReadFull of exactly the remaining octets. "" = Read loop only.
+	Drain      string `json:"drain,omitempty"`
+	DrainAfter int    `json:"drain_after,omitempty"`
 }
 
 func filler(seed int64, n int) []byte {
@@ -169,6 +176,43 @@ func check(c Case, r *vh.R) {
 			r.Failf("no-progress", "decoder for %d octets (rs=%d) has not finished after %d reads (%d octets delivered)", len(p), rs, it, len(out))
 			return
 		}
+		if c.Drain != "" && it >= c.DrainAfter {
+			var sink bytes.Buffer
+			var derr error
+			switch c.Drain {
+			case "copy":
+				_, derr = io.Copy(&sink, dec)
+			case "readall":
+				var rest []byte
+				rest, derr = io.ReadAll(dec)
+				sink.Write(rest)
+			case "bufio":
+				_, derr = io.Copy(&sink, bufio.NewReaderSize(dec, 16))
+			case "readfull":
+				rest := make([]byte, len(p)-len(out))
+				_, derr = io.ReadFull(dec, rest)
+				sink.Write(rest)
+				if derr == nil {
+					if n, e2 := dec.Read(make([]byte, 8)); n != 0 || e2 != io.EOF {
+						derr = fmt.Errorf("after the whole payload Read returned (%d, %v), want (0, EOF)", n, e2)
+					}
+				}
+			default:
+				r.Skip = true
+				return
+			}
+			r.Class("drain:" + c.Drain)
+			out = append(out, sink.Bytes()...)
+			if derr != nil {
+				r.Failf("decode-error", "%s rs=%d payload of %d octets: after %d Read calls (%d octets), draining the rest with %s failed: %v", enc, rs, len(p), it, len(out)-sink.Len(), c.Drain, derr)
+				return
+			}
+			if !bytes.Equal(out, p) {
+				r.Failf("roundtrip-value", "%s rs=%d payload of %d octets: %d Read calls delivered %d octets, then %s delivered %d more: together %d octets that are not the payload (octets lost or repeated between the two ways of reading)", enc, rs, len(p), it, len(out)-sink.Len(), c.Drain, sink.Len(), len(out))
+				return
+			}
+			return
+		}
 		dst := make([]byte, sizes[it%len(sizes)])
 		n, err := dec.Read(dst)
 		if n < 0 || n > len(dst) {
@@ -245,6 +289,22 @@ func TestExhaustive(t *testing.T) {
 							n++
 							if !exhProp.One(t, Case{Draft: draft, RS: rs, Len: l, Payload: p, MaxRS: max, Reads: pat}) {
 								return
+							}
+						}
+					}
+					// the rest drained the way library code does it, after 0..2 Read calls with a small buffer
+					if f == 0 {
+						for _, drain := range []string{"copy", "readall", "bufio", "readfull"} {
+							for after := 0; after <= 2; after++ {
+								for _, first := range []int{1, rs - 1, rs + 5} {
+									if first < 1 || (after == 0 && first != 1) {
+										continue
+									}
+									n++
+									if !exhProp.One(t, Case{Draft: draft, RS: rs, Len: l, Payload: p, MaxRS: 16384, Reads: []int{first}, Drain: drain, DrainAfter: after}) {
+										return
+									}
+								}
 							}
 						}
 					}
